@@ -12,7 +12,9 @@
       fx_subs    sub-expressions that were skipped are visited: call.args.var_args / kw_var, the receiver
                  of an attribute access, decorators, and at module level the callee of a call and the
                  parameters of a lambda
-    [cur] is the code as it is now; [nofix] the code as found (used only for the *_refuted witnesses). *)
+    [cur] is the code as it is now (/repo commits c9ed2605 "a local block inherits the permission of the nearest
+    enclosing subroutine" and d85f0e20 "visit the sub-expressions that were skipped"); [nofix] the code as found
+    (used only for the *_refuted witnesses). *)
 From Coq Require Import ZArith List Bool.
 From ErgV Require Import Effects.MiniHir.
 Import ListNotations.
